@@ -14,14 +14,16 @@
 (* to msize (exact = a Twrite of exactly msize bytes, overK = an Rread K   *)
 (* bytes too long, shortK = a valid body with its last K bytes missing and *)
 (* the prefix adjusted, pK = a bare prefix of value K, cut = a valid frame *)
-(* whose second half never arrives).  The state machine below is what TLC  *)
+(* whose second half never arrives; p5 / p6 are complete runt frames: the  *)
+(* prefix plus a type byte (and half a tag) - too short for any message,   *)
+(* but their body bytes belong to them and must be consumed).  The state machine below is what TLC  *)
 (* explores; ReadSeqs enumerates all short frame sequences with expected    *)
 (* outcomes for replay.                                                    *)
 (***************************************************************************)
 EXTENDS Integers, Sequences, FiniteSets, TLC
 
 Classes == {"valid", "tread", "exact", "over1", "over7", "overbig", "undec", "badstr", "short1", "short3",
-            "p0", "p1", "p2", "p3", "p4", "cut"}
+            "p0", "p1", "p2", "p3", "p4", "p5", "p6", "cut"}
 OverOf == [over1 |-> 1, over7 |-> 7, overbig |-> 70000]
 
 \* outcome of one frame
